@@ -445,7 +445,7 @@ func TestVerif_C03_MisbehavingPeer(t *testing.T) {
 		useDelivered := map[string]int{}
 		var oldReqs []*simDgram // unanswered checks of generations ended by Restart
 		for i := 0; i < nOps; i++ {
-			op := rapid.SampledFrom([]string{"tick", "tick", "peerRequest", "peerRequest", "peerRequest", "answer", "answer", "answer", "answer", "answerFromElsewhere", "answerToOtherLocal", "dropRequest", "signal", "signal", "dupAnswer", "restart", "answerOld", "answerOld"}).Draw(rt, "op")
+			op := rapid.SampledFrom([]string{"tick", "tick", "peerRequest", "peerRequest", "peerRequest", "answer", "answer", "answer", "answer", "answerFromElsewhere", "answerToOtherLocal", "answerWithError", "dropRequest", "signal", "signal", "dupAnswer", "restart", "answerOld", "answerOld"}).Draw(rt, "op")
 			arg := rapid.IntRange(0, 11).Draw(rt, "arg")
 			s.purgeNonRequests()
 			switch op {
@@ -547,6 +547,25 @@ func TestVerif_C03_MisbehavingPeer(t *testing.T) {
 				s.answer(d, other)
 				lbl["response-from-other-address"] = true
 				s.ops = append(s.ops, fmt.Sprintf("answerFromElsewhere(%s via %s)", d, other.name()))
+			case "answerWithError":
+				// the peer refuses a check or a nomination: an authentic, transaction-matched *error* response
+				reqs := s.agentRequests()
+				if len(reqs) == 0 {
+					continue
+				}
+				d := reqs[arg%len(reqs)]
+				ep := s.epByAddr(d.dst)
+				s.removeInflight(d)
+				if ep == nil || d.src.isClosed() {
+					continue
+				}
+				code := rapid.SampledFrom([]stun.ErrorCode{stun.CodeRoleConflict, stun.CodeBadRequest, stun.CodeUnauthorized, 500}).Draw(rt, "errorCode")
+				s.inject(ep, d.src, simBuildError(d.msg.txid, code, s.peer.pwd).Raw)
+				lbl["error-response-to-check"] = true
+				if d.msg.useCand {
+					lbl["error-response-to-nomination"] = true
+				}
+				s.ops = append(s.ops, fmt.Sprintf("answerWithError(%s code=%d)", d, code))
 			case "answerToOtherLocal":
 				// the (authenticated) peer sends the answer to a check to another local address of the agent
 				reqs := s.agentRequests()
@@ -597,7 +616,7 @@ func TestVerif_C03_MisbehavingPeer(t *testing.T) {
 			labels = append(labels, l)
 		}
 		labels = append(labels, fmt.Sprintf("selections:%d", min(mon.changes, 3)), fmt.Sprintf("role:controlling=%v,lite=%v", controlling, lite))
-		nontrivial := lbl["use-candidate-before-own-check"] || lbl["use-candidate-repeated"] || lbl["use-candidate-while-selected"] || lbl["answer-to-check-of-ended-generation"]
+		nontrivial := lbl["use-candidate-before-own-check"] || lbl["use-candidate-repeated"] || lbl["use-candidate-while-selected"] || lbl["answer-to-check-of-ended-generation"] || lbl["error-response-to-nomination"]
 		desc := fmt.Sprintf("controlling=%v lite=%v checkPrio=%v locals=%v eps=%v ops=%s", controlling, lite, checkPrio, locals, eps, strings.Join(s.ops, "; "))
 		st.Record(vfHashStr(desc), nontrivial && mon.changes > 0, labels...)
 		if nontrivial && mon.changes > 0 && st.WantSample() {
